@@ -150,6 +150,9 @@ Definition c12_promised (c : c12_case) : bool :=
     let n := length cs in let l := incl_lt cs in
     Nat.ltb (find_top l n) n && Nat.ltb (find_bottom l n) n in
   has_tb cs &&
+  (* is_concepts_sorted=True promises a topological listing: every concept after all its super-concepts *)
+  (negb (k_sorted c) ||
+   forallb (fun i => forallb (fun j => negb (slt i j) || Nat.ltb j i) (seq 0 n)) (seq 0 n)) &&
   match k_op c with
   | 8 => has_tb (cs ++ [k_new c]) && negb (existsb (fun e => same_setb e (k_new c)) cs)
   | 9 => has_tb (remove_nth (k_arg c) cs) && Nat.ltb (k_arg c) n
